@@ -165,12 +165,16 @@ token text is byte-for-byte equal (`renderT` looks the text up; tied to the sour
 `C15_ident_dedup_key_tied`), so case variants such as `"Host"` / `"host"` keep separate masks. What the
 byte-level `C15_roundtrip_partial` adds is only that placeholder TEXT cannot be confused with user text. -/
 theorem C15_roundtrip_tokens (s : Bytes) :
+    -- the current source restores first-to-last, once per string mask, everywhere per identifier
+    -- mask, de-duplicating identifiers by their exact text: what `unmaskT` / `renderT` model
+    (Arc.Generated.C15.unmaskFirstToLast = true ∧ Arc.Generated.C15.unmaskStrCount = 1 ∧
+      Arc.Generated.C15.unmaskIdentAll = true ∧ Arc.Generated.C15.identDedupKeyIsTokenText = true) ∧
     (mask s true).1 = flatT (renderT 0 [] (mSegs s)).1 ∧
     (mask s true).2 = (renderT 0 [] (mSegs s)).2.map maskOfT ∧
     unmaskT (renderT 0 [] (mSegs s)).1 (renderT 0 [] (mSegs s)).2 = bytesT s := by
   have h := render_eq_renderT (mSegs s) 0 []
   have r := roundtripT_gen (mSegs s) 0 [] [] (by intro e he; simp at he)
-  refine ⟨by simpa [mask, imBytes, imTok] using h.1, by simpa [mask, imBytes, imTok] using h.2, ?_⟩
+  refine ⟨by decide, by simpa [mask, imBytes, imTok] using h.1, by simpa [mask, imBytes, imTok] using h.2, ?_⟩
   simpa [bytesT, C15_mask_partition] using r
 
 /-- `"Host" "host" "Host"`: two masks (`"Host"` shared by the 1st and 3rd occurrence, `"host"` its own) -/
@@ -214,6 +218,17 @@ theorem C15_unmask_mode_tied :
 byte-for-byte identical (`render` looks the whole token up): the key of the `identPlaceholders` map in
 the current source is the token text itself, not a normalised form. -/
 theorem C15_ident_dedup_key_tied : Arc.Generated.C15.identDedupKeyIsTokenText = true := by decide
+
+/-- **C15_unmask_order_tied.** Masks are restored first-to-last in the current source. -/
+theorem C15_unmask_order_tied : Arc.Generated.C15.unmaskFirstToLast = true := by decide
+
+/-- `"a" '__IDENT_0__'` (an identifier placeholder spelled inside a LATER literal) round-trips because
+the identifier mask is restored BEFORE the literal comes back … -/
+theorem C15_roundtrip_later_literal_ok :
+    unmask (mask ([34, 97, 34, 32, 39, 95, 95, 73, 68, 69, 78, 84, 95, 48, 95, 95, 39] : Bytes) true).1 (mask ([34, 97, 34, 32, 39, 95, 95, 73, 68, 69, 78, 84, 95, 48, 95, 95, 39] : Bytes) true).2 = ([34, 97, 34, 32, 39, 95, 95, 73, 68, 69, 78, 84, 95, 48, 95, 95, 39] : Bytes) := by decide
+/-- … and would not if the same masks were restored last-to-first: the result is `"a" '"a"'`. -/
+theorem C15_roundtrip_order_witness :
+    unmask (mask ([34, 97, 34, 32, 39, 95, 95, 73, 68, 69, 78, 84, 95, 48, 95, 95, 39] : Bytes) true).1 (mask ([34, 97, 34, 32, 39, 95, 95, 73, 68, 69, 78, 84, 95, 48, 95, 95, 39] : Bytes) true).2.reverse ≠ ([34, 97, 34, 32, 39, 95, 95, 73, 68, 69, 78, 84, 95, 48, 95, 95, 39] : Bytes) := by decide
 
 /-- **C15_sites_mask_before_strip.** Every function of `internal/api/query.go` that strips comments
 masks first — the order `normalize` models (and the reason a quote inside a comment is a finding). -/
